@@ -299,7 +299,7 @@ PROPS = {
         module="Bita.Props.C11",
         level="proof",
         needs_bita=True,
-        required_theorems=["header_layout", "proto_roundtrip", "writer_invariants", "descriptors_unique_first_occurrence", "reader_reports_verbatim", "lib_temp_file_flushed_fact"],
+        required_theorems=["header_layout", "proto_roundtrip", "writer_invariants", "descriptors_unique_first_occurrence", "reader_reports_verbatim", "lib_temp_file_flushed_fact", "cli_sizes_fit_u32_fact"],
         suites=dict(quick=[("py", "c11_conformance"), ("l1", "fmt")], thorough=[("py", "c11_conformance"), ("l1", "fmt")]),
         rule="archives of both writers over random sources/configs/hash lengths/compression/metadata (incl. empty key, non-ASCII, long values): "
              "Python conformance checklist on the raw bytes; prost vs model: encode-dict byte-exact, decode-dict field-exact on encodings, "
